@@ -22,6 +22,18 @@ def family(pid, tier, seed):
             GG.random_inputs(g, rng, rnd, 8, seen)
             gs.append(g)
         gs += curated_core(rng)
+        # the repetition limit (participle.MaxIterations): a sub-family with the limit lowered to 3
+        for i in range(4 if quick else 30):
+            g = GG.make_grammar(rng, "m%d" % i, ks=(0, 1, -1))
+            g["maxiter"] = 3
+            seen = set()
+            GG.exhaustive_inputs(g, 2, seen)
+            GG.random_inputs(g, rng, 80, 10, seen)
+            terms = GG.grammar_terms(g)
+            for t in terms:
+                for n_ in (3, 4, 5):
+                    GG.add_input(g, " ".join([t] * n_), seen)
+            gs.append(g)
     elif pid == "C02":
         gs = leak_family(rng, quick)
     elif pid == "C10":
